@@ -195,6 +195,7 @@ def run_cg(ctx, case, M, b, x0, Pm, counter, tol=None, max_iters=None, hard_cap=
         Pop = NystromPrecond(cola.ops.Dense(M), rank=max(1, min(M.shape[0] // 2, 10)), key=7)
     tol = case["tol"] if tol is None else tol
     max_iters = case["max_iters"] if max_iters is None else max_iters
+    max_iters = P.count_form(max_iters, case["seed"] // 3)
     LOOPS.install()
     LOOPS.start(hard_cap=(max_iters + 5) if hard_cap is None else hard_cap)
     try:
